@@ -210,17 +210,24 @@ void multisequence_partition(const RanSeqs& begin_seqs, const RanSeqs& end_seqs,
         n /= 2;
 
         const value_type* lmax = nullptr; // impossible to avoid the warning?
+        diff_type lmax_seq = -1;
         for (diff_type i = 0; i < m; ++i)
         {
             if (a[i] > 0)
             {
                 if (!lmax)
+                {
                     lmax = &(begin_seqs[i].first[a[i] - 1]);
+                    lmax_seq = i;
+                }
                 else
                 {
                     // max, favor rear sequences
                     if (!comp(begin_seqs[i].first[a[i] - 1], *lmax))
+                    {
                         lmax = &(begin_seqs[i].first[a[i] - 1]);
+                        lmax_seq = i;
+                    }
                 }
             }
         }
@@ -228,8 +235,12 @@ void multisequence_partition(const RanSeqs& begin_seqs, const RanSeqs& end_seqs,
         for (diff_type i = 0; i < m; ++i)
         {
             diff_type middle = (b[i] + a[i]) / 2;
+            // compare (value, sequence) lexicographically: among equal
+            // values the left side takes them from sequences with smaller
+            // number, hence the middle of a later sequence is not below lmax.
             if (lmax && middle < seqlen[i] &&
-                comp(begin_seqs[i].first[middle], *lmax))
+                lcomp(SamplePair(begin_seqs[i].first[middle], i),
+                      SamplePair(*lmax, lmax_seq)))
                 a[i] = std::min(a[i] + n + 1, seqlen[i]);
             else
                 b[i] -= n + 1;
